@@ -1,14 +1,14 @@
 CONSTANTS
   None = None
   c1 = c1  c2 = c2  c3 = c3  w1 = w1  w2 = w2  rp = rp  rb = rb
-  NSlab = 4  Cap = 4  Q = 1  NPkt = 3
+  NSlab = 3  Cap = 3  Q = 1  NPkt = 3
   Clients = {c1, c2}
-  Kinds <- KBatchP
+  Kinds <- KPortable
   Workers = {w1}
-  PReaders <- NoReaders
-  BReaders = {rb}
-  B = 2  TXMax = 2
-  Inline = TRUE  BatchTX = TRUE  Drops = FALSE
+  PReaders = {rp}
+  BReaders <- NoReaders
+  B = 1  TXMax = 2
+  Inline = FALSE  BatchTX = FALSE  Drops = TRUE
   ScrubTxLen = TRUE  ResetRawSA = TRUE  BothOnHandoff = FALSE
 SPECIFICATION Spec
 SYMMETRY SymClients
